@@ -4,6 +4,7 @@
 #include <igris/osinter/wait.h>
 #include <igris/sync/syslock.h>
 #include <igris/util/macro.h>
+#include <igris/util/verif_hook.h>
 
 int waiter_unwait(igris::dlist_node *lnk, intptr_t future)
 {
@@ -22,12 +23,14 @@ void unwait_one(igris::dlist_base *head, intptr_t future)
 
     if (head->empty())
     {
+        IGRIS_VERIF_POINT("u_empty", head, 0);
         system_unlock();
         return;
     }
 
     it = head->first_node();
     it->unlink();
+    IGRIS_VERIF_POINT("u_unlink", mcast_out(it, waiter, lnk)->obj, future);
     waiter_unwait(it, future);
 
     system_unlock();
@@ -43,6 +46,7 @@ void unwait_all(igris::dlist_base *head, intptr_t future)
     {
         it = head->first_node();
         it->unlink();
+        IGRIS_VERIF_POINT("u_unlink", mcast_out(it, waiter, lnk)->obj, future);
         waiter_unwait(it, future);
     }
 
